@@ -4,6 +4,7 @@ from __future__ import annotations
 
 import ctypes
 import gc
+import itertools
 import json
 import os
 import sys
@@ -25,6 +26,12 @@ CALLS = {
     "mul": ("a(i) = b(i) * c(i)", "s"),
     "dot": ("a() = b(i) * c(i)", ""),
     "addd": ("a(i) = b(i) + c(i)", "d"),
+    # Tensor operators with a Python number (the number differs per thread): ("OP", f(b, c, thread index))
+    "opmul": ("OP", lambda b, c, k: b * (2.0 + k)),
+    "opradd": ("OP", lambda b, c, k: (3.0 + 2 * k) + c),
+    "opsub": ("OP", lambda b, c, k: b - c),
+    # a problem no earlier call of the process has seen (fresh tensor name per call)
+    "fresh": ("FRESH", "s"),
 }
 
 # name -> (thread call names, cache state, backend)
@@ -38,6 +45,12 @@ SCENARIOS = {
     # a kernel with growable (int + double) arrays compiled next to one whose only allocation is double
     "S7-sparse-dense-cold": (["add", "addd"], "cold", "llvm"),
     "S7r-dense-sparse-cold": (["addd", "add"], "cold", "llvm"),
+    # operators: tensor * number next to number + tensor, and next to a tensor - tensor
+    "S8-operators-warm": (["opmul", "opradd"], "warm", "llvm"),
+    "S8m-operators-mixed": (["opmul", "opsub", "opradd"], "warm", "llvm"),
+    # full kernel cache: thread 0 re-uses the least recently used kernel while thread 1 brings in a never-seen one
+    "S9-full-cache-hit-vs-insert": (["add", "fresh"], "full", "llvm"),
+    "S9r-full-cache-insert-vs-hit": (["fresh", "add"], "full", "llvm"),
     "S4-cffi-cold": (["add", "mul"], "cold", "cffi"),
     "S4w-cffi-warm": (["add", "add"], "warm", "cffi"),
 }
@@ -58,6 +71,9 @@ class Scenario:
         self.name = name
         self.calls, self.cache, self.backend = SCENARIOS[name]
         self.cache_clear = cachable_tensor_method.cache_clear
+        self.cachable = cachable_tensor_method
+        self.fresh = itertools.count()
+        self.filler_keys = None
         self.evaluate = evaluate_tensora if self.backend == "llvm" else evaluate_cffi
         self.raw_image = raw_image
         self.raw_decode = raw_decode
@@ -89,7 +105,42 @@ class Scenario:
     def call(self, cname, k=0):
         expr, fmt = CALLS[cname]
         b, c = self.inputs[k]
+        if expr == "OP":
+            return fmt(b, c, k)
+        if expr == "FRESH":
+            n = next(self.fresh)
+            return self.evaluate(f"a(i) = b(i) * fresh{n}(i)", fmt, b=b, **{f"fresh{n}": c})
         return self.evaluate(expr, fmt, b=b, c=c)
+
+    def fill_cache(self):
+        """Leaves the kernel cache full with the hitting thread's problem as the least recently used entry.  The filler
+        problems go through evaluate() once per process (their cache keys are recorded on the way); afterwards a
+        fill is 127 direct cache look-ups and at most two compilations."""
+        import tensora.compile._porcelain as pc
+
+        info = getattr(pc.cachable_tensor_method, "cache_info", None)
+        size = (info().maxsize if info is not None else None) or 128
+        hitter = self.calls.index("add")
+        self.call("add", hitter)
+        if self.filler_keys is None:
+            orig = pc.cachable_tensor_method
+            seen = []
+
+            def recording(problem, backend):
+                seen.append((problem, backend))
+                return orig(problem, backend)
+
+            pc.cachable_tensor_method = recording
+            try:
+                b, c = self.inputs[-1]
+                for n in range(size - 1):
+                    self.evaluate(f"a(i) = b(i) + filler{n}(i)", "s", b=b, **{f"filler{n}": c})
+            finally:
+                pc.cachable_tensor_method = orig
+            self.filler_keys = seen
+        else:
+            for problem, backend in self.filler_keys:
+                pc.cachable_tensor_method(problem, backend)
 
     def observe(self, t):
         dims, fmt, stored, problems = self.raw_decode(t)
@@ -98,6 +149,8 @@ class Scenario:
     def setup(self):
         if self.cache == "cold":
             self.cache_clear()
+        elif self.cache == "full":
+            self.fill_cache()
         elif self.cache == "mixed":
             self.cache_clear()
             self.call(self.calls[0], 0)  # first call warm, the others never seen
@@ -210,6 +263,11 @@ def work(unit):
         ts.reload_with_sched_locks(cc, lock)
         guard = CompileGuard()
         guard.install(lock)
+    if lock is None:
+        lock = ts.LockRegistry()
+    import tensora.compile  # noqa: F401 - make sure the modules whose locks are swapped are loaded
+
+    ts.swap_module_locks(lock)
     sc = Scenario(name)
     ex = ts.Explorer(sc, VISIBLE[unit["visible"]], unit["bound"], lock=lock, max_executions=unit.get("max_executions"))
     ex.trace_path = trace_file(unit)
@@ -275,15 +333,19 @@ def plan(tier):
             ("S3-diff-cold", "core", 1, 6),
             ("S4-cffi-cold", "core", 1, 6),
             ("S7-sparse-dense-cold", "codegen", 1, 16),
+            ("S8-operators-warm", "core", 1, 4),
+            ("S9-full-cache-hit-vs-insert", "hot", 1, 8),
         ]
+    # sized to finish in about an hour on 16 idle cores: bound 2 where an execution is cheap (warm cache) or the visible
+    # set is small (cold cache: the three files that hold the shared state), bound 1 with wide visible sets elsewhere
     return [
         ("S1-same-warm", "core+weakref", 2, 16),
         ("S3w-diff-warm", "core+weakref", 2, 16),
         ("S6-eval-vs-drop", "core+weakref", 2, 16),
         ("S2-same-cold", "core+weakref", 1, 16),
         ("S3-diff-cold", "core+weakref", 1, 16),
-        ("S2-same-cold", "core", 2, 16),
-        ("S3-diff-cold", "core", 2, 16),
+        ("S2-same-cold", "hot", 2, 16),
+        ("S3-diff-cold", "hot", 2, 16),
         ("S5-three-mixed", "core", 1, 16),
         ("S4-cffi-cold", "core", 1, 8),
         ("S4w-cffi-warm", "core", 2, 8),
@@ -291,6 +353,11 @@ def plan(tier):
         ("S7-sparse-dense-cold", "all", 1, 16),
         ("S7r-dense-sparse-cold", "codegen", 1, 16),
         ("S3-diff-cold", "codegen", 1, 16),
+        ("S8-operators-warm", "hot", 2, 16),
+        ("S8-operators-warm", "core+weakref", 1, 8),
+        ("S8m-operators-mixed", "core", 1, 8),
+        ("S9-full-cache-hit-vs-insert", "core", 1, 16),
+        ("S9r-full-cache-insert-vs-hit", "core", 1, 16),
     ]
 
 
@@ -378,6 +445,11 @@ def replay(path):
         lock = ts.LockRegistry()
         ts.reload_with_sched_locks(cc, lock)
         CompileGuard().install(lock)
+    if lock is None:
+        lock = ts.LockRegistry()
+    import tensora.compile  # noqa: F401
+
+    ts.swap_module_locks(lock)
     sc = Scenario(name)
     ex = ts.Explorer(sc, VISIBLE[case["visible"]], case["bound"], lock=lock)
     outs = []
